@@ -48,6 +48,9 @@ type callOut struct {
 type spawnMeta struct {
 	M    *actors.Meta
 	Done chan gen.Alias
+	// Early > 0: send that many messages to the new meta process right after SpawnMeta
+	// returned, i.e. possibly before its main-loop goroutine has started
+	Early int
 }
 
 func spin(us int) {
@@ -91,6 +94,9 @@ func probeHooks() *actors.Hooks {
 				if err != nil {
 					close(m.Done)
 				} else {
+					for k := 0; k < m.Early; k++ {
+						p.Send(a, work{ID: uint64(k), Spin: 3000})
+					}
 					m.Done <- a
 				}
 			case error:
@@ -517,6 +523,59 @@ func runMetaDirected(park, action string) {
 	node.Kill(parent)
 }
 
+// messages sent to a meta process immediately after SpawnMeta returned (before its
+// main-loop goroutine ran): they must still be handled one at a time
+func runMetaEarly(round int) {
+	id := fmt.Sprintf("D/meta/early-send/%d", round)
+	if !hk.Want(id) {
+		return
+	}
+	r := &result{}
+	pf, pi := actors.NewProbe(id+"/parent", probeHooks())
+	parent, err := node.Spawn(pf, gen.ProcessOptions{})
+	if err != nil {
+		return
+	}
+	m := actors.NewMeta(id, &actors.MetaHooks{
+		Msg: func(m *actors.Meta, from gen.PID, msg any) error {
+			if x, ok := msg.(work); ok {
+				spin(x.Spin)
+			}
+			return nil
+		},
+	})
+	ch := make(chan gen.Alias, 1)
+	n := 2 + round%3
+	node.Send(parent, spawnMeta{M: m, Done: ch, Early: n})
+	var alias gen.Alias
+	select {
+	case a, ok := <-ch:
+		if !ok {
+			r.incon = "spawn meta failed"
+		}
+		alias = a
+	case <-time.After(10 * time.Second):
+		r.incon = "spawn meta timeout"
+	}
+	if r.incon == "" {
+		// a few more from plain goroutines while the first ones are being handled
+		for k := 0; k < 2; k++ {
+			node.Send(alias, work{ID: 100 + uint64(k), Spin: 500})
+		}
+		if !hk.WaitUntil(20*time.Second, func() bool {
+			return m.I.Callbacks.Load() >= int64(1+n+2) && hk.LiveRunners(alias) == 0 && !m.I.InCallback()
+		}) {
+			r.incon = "watchdog: early messages not all handled"
+		}
+	}
+	close(m.Stop)
+	hk.WaitUntil(5*time.Second, func() bool { return m.I.TermCount.Load() > 0 && !m.I.InCallback() && hk.LiveRunners(alias) == 0 })
+	checkInst(m.I, r)
+	checkInst(pi, r)
+	finish(id, "directed-meta", fmt.Sprintf("D/meta/early-send/n%d", n), r.incon == "", int64(len(m.I.Events())), r, map[string]any{"events": fmt.Sprint(m.I.Events())})
+	node.Kill(parent)
+}
+
 // ---------------------------------------------------------------------------
 // stress
 
@@ -666,6 +725,9 @@ func main() {
 		for _, action := range []string{"send", "send2", "stop", "killparent", "stopsend"} {
 			runMetaDirected(park, action)
 		}
+	}
+	for k := 0; k < hk.Pick(30, 600); k++ {
+		runMetaEarly(k)
 	}
 	n := hk.Pick(250, 6000)
 	for k := 0; k < n; k++ {
